@@ -11,5 +11,7 @@ CONSTANTS
   AllowEnd = TRUE
   MaxRequery = 0
   FixCommitState = TRUE
+  SeqSMP = FALSE
+  FixSMPReset = FALSE
 INVARIANTS EmitLong40
 CHECK_DEADLOCK FALSE
